@@ -60,8 +60,12 @@ var callForms = func() []callForm {
 		mk("initializer", "S(3)", same(user(1)), ""),
 		mk("built-in function", "l2.toString()", same(nat()), ""),
 		mk("function in a condition", "if isPos(l2) { l3 = l3 + 1 }", same(user(1)), "SAssign 3 (EAdd (EVar 3) (EConst 1))"),
-		mk("pre- and post-condition calling functions", "sObj.chk(l2)", same(user(1, user(1), user(1))), ""),
-		mk("interface default function", "sObj.dflt(2)", same(user(1)), ""),
+		// conditions are charged as statements: interpreter 1 each, VM 2 each (the desugared test and its branch)
+		mk("pre- and post-condition calling functions", "sObj.chk(l2)",
+			[2][]auxNode{{user(3, user(1), user(1))}, {user(5, user(1), user(1))}}, ""),
+		// VM: the conforming type gets a delegating function that calls the interface's default implementation
+		mk("interface default function", "sObj.dflt(2)",
+			[2][]auxNode{{user(1)}, {user(1, user(1))}}, ""),
 		mk("call in the arguments of an optional-chaining call", "sSome?.add(helper(1))",
 			[2][]auxNode{{user(1, user(1))}, {user(1), user(1)}}, ""),
 		mk("call in the arguments of a call", "helper(helper(1))",
